@@ -76,6 +76,11 @@ CHECKS = {
         text="Small-scope exhaustive exploration; the model computes per variant the expected text (or rejection) from the statement's rule, and every prediction is executed against the real derive.",
         note="Trusted: the rule model in props/c07.py; any compile error counts as rejection for rule-rejected enums (reason not matched).",
         design_ref="DESIGN.md §3 C07", engine="compile"),
+    "C04": dict(
+        technique="bounded exhaustive enumeration of generic type definitions (14 field type forms x 5 reference styles per field x 1..3 fields x named/tuple x {struct, variant, shared enum default, shared enum wrapping, Debug field attributes/skip/implicit} x derived trait): 370k expansions through the real expanders in-process with the where-clause compared with the model bound set; a 2-field sub-space compiled with rustc for sufficiency (no further bounds) and non-excess (unformatted parameters instantiated with a type that implements no fmt trait)",
+        text="Every definition in the bounded space is expanded by the real code; the set of where-predicates mentioning a type parameter must equal {type of each referenced generic field : trait of the referencing placeholder} U bound(..) predicates. rustc then confirms on the compiled sub-space that the bounds are enough and do not constrain unformatted parameters.",
+        note="Trusted: the model in props/c04.py (each prediction executed); whitespace-free text comparison of predicates; std impl table used to pick instantiations. Trivially-true predicates on non-generic types are ignored.",
+        design_ref="DESIGN.md §3 C04", engine="inproc+compile"),
 }
 
 PENDING = ["C01", "C02", "C03", "C04", "C05", "C06", "C07", "C08", "C09", "C10", "C11", "C13", "C14", "C15", "C16",
